@@ -38,6 +38,9 @@ SPELL = {"doculect": ["doculect", "language", "taxa", "taxon"],
          "cogid": ["cogid"], "cogids": ["cogids"], "tokens": ["tokens", "tokenized_counterpart", "ipatokens"],
          "iso": ["iso", "isocode"], "ipa": ["ipa"], "note": ["note"], "langid": ["langid"],
          "partial_ids": ["partialid", "partialids", "partial_ids"]}
+META_KEYS = ["taxa", "doculect", "concepts", "language", "gloss", "DOCULECT", "TAXA", "cogid", "note", "mymeta",
+             "ipa", "concept"]
+DIM_SPELL = [a for c in ("doculect", "concept") for x in SPELL[c] for a in (x, x.upper())]
 FILE_TYPES = {"cogid": "int", "cogids": "ints", "tokens": "strs", "partial_ids": "ints", "langid": "str"}
 
 
@@ -145,18 +148,31 @@ def gen_case(rng, size=4, source=None):
     elif source == "dict" and c < 0.08 and "note" in cols:
         header[cols.index("note")] = rng.choice(["taxa", "LANGUAGE", "gloss"])
         kind = "duplicate-canonical"
-    case = {"source": source, "kind": kind, "cols": cols, "header": header, "rows": rows}
+    case = {"source": source, "kind": kind, "cols": cols, "header": header, "rows": rows,
+            "row": "concept", "col": "doculect", "meta": []}
+    if rng.random() < 0.3:                    # the two dimensions named by an alias, in lower or upper case
+        case["row"], case["col"] = spelling(rng, "concept"), spelling(rng, "doculect")
+        if rng.random() < 0.06:
+            case["row" if rng.random() < 0.5 else "col"] = rng.choice(["zzz", "Concept", "Taxa"])
+    if rng.random() < 0.3:                    # metadata whose keys collide with column aliases
+        keys = rng.sample(META_KEYS if source == "dict" else ["taxa", "doculect", "concepts", "language", "mymeta"],
+                          rng.choice([1, 1, 2]))
+        for k in keys:
+            if (source == "file" and k != "taxa") or (source == "dict" and rng.random() < 0.3):
+                case["meta"].append([k, rng.choice(["x", "some text", "Zulu"])])
+            else:
+                case["meta"].append([k, rng.sample(LANGS[:14], rng.choice([1, 2, 3]))])
     ops, cols_after, news, focus = gen_ops(rng, cols, rows, source)
     case["ops"] = ops
     case["focus"] = focus
-    case["q0"] = gen_queries(rng, cols, [], focus=focus)
+    case["q0"] = gen_queries(rng, cols, [], focus=focus, case=case)
     # after every operation all views are read again; the steps before the last one use light queries
-    case["qs"] = [gen_queries(rng, cols_after[i], news[i], focus=focus, light=(i < len(ops) - 1))
+    case["qs"] = [gen_queries(rng, cols_after[i], news[i], focus=focus, light=(i < len(ops) - 1), case=case)
                   for i in range(len(ops))]
     return case
 
 
-def gen_queries(rng, cols, new, focus=(), light=False):
+def gen_queries(rng, cols, new, focus=(), light=False, case=None):
     """focus: [(column, spelling)] - columns the history is going to change; they are read through the SAME
     spelling before and after every step (a stale cache inside the implementation would show)."""
     pick = [c for c in cols if c not in ("doculect", "concept")]
@@ -194,8 +210,24 @@ def gen_queries(rng, cols, new, focus=(), light=False):
         paps.append((refs[-1], -1))
         if rng.random() < 0.3:
             dst.append((refs[-1], rng.random() < 0.5))
+    # attribute access wl.<s> and keyword views get_list(s=name): spellings of the two dimensions,
+    # metadata keys, a column, an unknown name
+    langs = sorted({r[1][case["cols"].index("doculect")] for r in case["rows"]}) if case else []
+    concs = sorted({r[1][case["cols"].index("concept")] for r in case["rows"]}) if case else []
+    attrs = rng.sample(DIM_SPELL, 1 if light else 3) + [k for k, _ in (case["meta"] if case else [])]
+    if not light:
+        attrs.append(spelling(rng, rng.choice(pick)) if pick else "ipa")
+        if rng.random() < 0.3:
+            attrs.append(rng.choice(["zzz", "mymeta", "ISO"]))
+    kws = []
+    for sp in rng.sample(DIM_SPELL, 1 if light else 2):
+        names = langs if sp.lower() in SPELL["doculect"] else concs
+        if names:
+            kws.append((sp, rng.choice(names) if rng.random() < 0.9 else "Nowhere"))
+    if not light and rng.random() < 0.2:
+        kws.append((rng.choice(["cogid", "zzz", "IPA"]), rng.choice(langs or ["x"])))
     return {"entries": ent, "refs": refs, "items": items, "iter": it, "dst": dst, "paps": paps,
-            "attr": rng.random() < 0.5}
+            "attr": rng.random() < 0.5, "attrs": attrs, "kws": kws}
 
 
 def key_of(v):
@@ -451,11 +483,20 @@ def build_input(case):
     d = {0: list(case["header"])}
     for rid, cells in case["rows"]:
         d[rid] = [list(c) if isinstance(c, list) else c for c in cells]
+    for k, v in case.get("meta", []):
+        d[k] = list(v) if isinstance(v, list) else v
     return d
 
 
 def write_file(case, path):
-    lines = ["\t".join(["ID"] + [h.upper() for h in case["header"]])]
+    lines = []
+    for k, v in case.get("meta", []):
+        if isinstance(v, list):
+            assert k == "taxa"
+            lines += ["<taxa>"] + list(v) + ["</taxa>"]
+        else:
+            lines.append("@%s: %s" % (k, v))
+    lines.append("\t".join(["ID"] + [h.upper() for h in case["header"]]))
     for rid, cells in case["rows"]:
         out = [str(rid)]
         for c in cells:
@@ -523,6 +564,19 @@ def snapshot(wl, q):
             s["dst"].append([[str(decode_dst(x, wl.height)) for x in r] for r in m])
         except KeyError:
             s["dst"].append(None)
+    s["attrs"] = []
+    for name in q.get("attrs", []):
+        try:
+            v = plain(getattr(wl, name))
+        except AttributeError:
+            v = {"err": True}
+        s["attrs"].append(v)
+    s["kws"] = []
+    for kw, name in q.get("kws", []):
+        try:
+            s["kws"].append(plain(wl.get_list(flat=True, **{kw: name})))
+        except ValueError:
+            s["kws"].append(None)
     s["paps"] = []
     for ref, marker in q["paps"]:
         try:
@@ -546,11 +600,11 @@ def run_impl(case):
             path = os.path.join(d, "w%d.qlc" % _tmp_counter[0])
             write_file(case, path)
             try:
-                wl = Wordlist(path)
+                wl = Wordlist(path, row=case.get("row", "concept"), col=case.get("col", "doculect"))
             finally:
                 os.remove(path)
         else:
-            wl = Wordlist(build_input(case))
+            wl = Wordlist(build_input(case), row=case.get("row", "concept"), col=case.get("col", "doculect"))
     except (KeyError, ValueError, IndexError) as e:
         res["ctor_error"] = "%s: %s" % (type(e).__name__, str(e)[:200])
         return res
@@ -615,6 +669,16 @@ def r_views(C, ev):
              for e in ev["etym"]]))
 
 
+def r_attr(C, a):
+    if isinstance(a, dict):
+        return "AErr"
+    if isinstance(a, list) and a and all(isinstance(x, list) for x in a):
+        return "(ATable %s)" % r_cll(C, a)
+    if isinstance(a, list):
+        return "(AList %s)" % zl([C.atom(x) for x in a])
+    return "(AAtom %s)" % zn(C.atom(a))
+
+
 def r_snapshot(C, s):
     return "(Build_snapshot %s)" % " ".join([
         zl([C.name(x) for x in s["rows"]]), zl([C.name(x) for x in s["cols"]]),
@@ -629,15 +693,19 @@ def r_snapshot(C, s):
         lst([opt(v, lambda v: r_cl(C, v)) for v in s["items"]]),
         lst([opt(m, lambda m: lst([lst([L.q(F(x)) for x in r]) for r in m])) for m in s["dst"]]),
         lst([opt(p, lambda p: lst([pair(zn(C.atom(k)), zl([C.atom(x) for x in v])) for k, v in p]))
-             for p in s["paps"]])])
+             for p in s["paps"]]),
+        lst([r_attr(C, a) for a in s["attrs"]]),
+        lst([opt(v, lambda v: r_cl(C, v)) for v in s["kws"]])])
 
 
-def r_queries(q):
+def r_queries(C, q):
     return "(Build_queries %s)" % " ".join([
         lst([cstr(x) for x in q["entries"]]), lst([cstr(x) for x in q["refs"]]),
         lst([cstr(x) for x in q["items"]]), lst([cstr(x) for x in q["iter"]]),
         lst([pair(cstr(r), L.b(i)) for r, i in q["dst"]]),
-        lst([pair(cstr(r), zn(m)) for r, m in q["paps"]])])
+        lst([pair(cstr(r), zn(m)) for r, m in q["paps"]]),
+        lst([cstr(x) for x in q.get("attrs", [])]),
+        lst([pair(cstr(k), zn(C.name(n))) for k, n in q.get("kws", [])])])
 
 
 def render(case, res):
@@ -659,16 +727,18 @@ def render(case, res):
             ops.append("(OpRenum %s %s %s %s %s)" % (
                 cstr(op["source"]), cstr(op["target"]), L.b(op["override"]),
                 lst([pair(C.cell(v), zn(k)) for v, k in sk["table"]]), zn(sk["kempty"])))
+    meta = lst([pair(cstr(k), C.cell(v)) for k, v in case.get("meta", [])])
+    q0 = r_queries(C, case["q0"])
     snap0 = opt(res["snap0"], lambda s: r_snapshot(C, s))
-    steps = lst(["(%s, %s, %s)" % (o, r_queries(q), opt(sn, lambda s: r_snapshot(C, s)))
+    steps = lst(["(%s, %s, %s)" % (o, r_queries(C, q), opt(sn, lambda s: r_snapshot(C, s)))
                  for o, q, sn in zip(ops, case["qs"], res["snaps"])])
     conv = lst([lst([pair(zn(a), zn(b)) for a, b in c]) for c in res["conv"]])
     lk, rk = C.keys()                                           # after everything has been coded
     hdr = [h.lower() for h in case["header"]] if case["source"] == "file" else case["header"]
     return "(Build_wl_case %s)" % " ".join([
-        lst([cstr(h) for h in hdr]), data,
+        lst([cstr(h) for h in hdr]), data, cstr(case.get("row", "concept")), cstr(case.get("col", "doculect")), meta,
         lst([pair(zn(a), zn(b)) for a, b in lk]), lst([pair(zn(a), zn(b)) for a, b in rk]),
-        r_queries(case["q0"]), snap0, steps, conv])
+        q0, snap0, steps, conv])
 
 
 # ------------------------------------------------------------------------------- bookkeeping
@@ -692,6 +762,7 @@ def jsonable(case, res=None):
 
 def _q(q):
     q = dict(q)
+    q["kws"] = [tuple(x) for x in q.get("kws", [])]
     q["dst"] = [tuple(x) for x in q["dst"]]
     q["paps"] = [tuple(x) for x in q["paps"]]
     return q
@@ -753,6 +824,10 @@ def classify(case, res):
         out.append("case-collision")
     if case["ops"] and res["snaps"][-1] is None:
         out.append("op-raised")
+    if case.get("row", "concept") != "concept" or case.get("col", "doculect") != "doculect":
+        out.append("row/col-by-alias")
+    if case.get("meta"):
+        out.append("meta-collides")
     for op in case["ops"]:
         out.append("op=" + op["kind"] + ("-override" if op.get("override") else ""))
     if case.get("focus"):
